@@ -84,11 +84,11 @@ func init() {
 		Assume:      []string{"context.WithTimeout bounds a unary gRPC call", "os.Process.Kill delivers SIGKILL"},
 	})
 	register(&propDef{ID: "C05",
-		Rules: []func(*Ctx){ruleKillCtx, ruleOrderO4,
+		Rules: []func(*Ctx){onlyObligations(ruleOnce, func(o *Obligation) bool { return strings.Contains(o.Construct, "launch gate") }), ruleKillCtx, ruleOrderO4,
 			ruleOrderStart, scoped(ruleErrL2Scoped, startPath), scoped(ruleErrL1Scoped, startPath), ruleKill, ruleSocketDir,
 		},
 		Technique:   "dominance/ordering queries on Client.Start (runner recorded before launch; kill-on-error defer registered right after a successful launch and reading the named result), error-path interpretation, Kill path enumeration",
-		Explanation: "Decides: the runner is stored in the client before it is started (O2); the deferred cleanup is registered immediately after a successful runner.Start with no return in between, and kills the runner iff the named result err is non-nil or a panic is in flight (O3); every post-launch failure is returned as a non-nil error so the guard fires (R-ERR/L2); Kill force-kills when no address was negotiated (R-EXIT/kill) and removes the socket directory on every non-early exit (R-RES/socketdir).",
+		Explanation: "Decides: the runner is stored in the client before it is started (O2); the deferred cleanup is registered immediately after a successful runner.Start with no return in between, and kills the runner iff the named result err is non-nil or a panic is in flight (O3); every post-launch failure is returned as a non-nil error so the guard fires (R-ERR/L2); Kill force-kills when no address was negotiated (R-EXIT/kill) and removes the socket directory on every non-early exit (R-RES/socketdir). Start stores client state (socket directory, runner) only behind the launched-once test, so a refused second Start cannot wipe what Kill has to clean up.",
 		NotDecided:  "process liveness itself (that Kill on the runner ends the process).",
 		Assume:      []string{"deferred functions run on every return and on panic"},
 	})
